@@ -29,7 +29,7 @@ func (r *Rng) Intn(n int) int {
 	return int(r.U64() % uint64(n))
 }
 func (r *Rng) Chance(num, den int) bool { return r.Intn(den) < num }
-func (r *Rng) Fork() *Rng                { return NewRng(r.U64()) }
+func (r *Rng) Fork() *Rng               { return NewRng(r.U64()) }
 
 // ---------------------------------------------------------------- helpers
 
